@@ -1197,6 +1197,14 @@ func (fv *FuncVC) ret(in *ssa.Return) {
 			continue
 		}
 		t := env.evalBool(e.E, e)
+		if be, ok := e.E.(EBinary); ok && be.Op == "==>" && fv.curReach != "" {
+			// cover: the antecedent can be true at some normal return (else the clause says nothing)
+			a := env.evalBool(be.X, e)
+			if fv.covers == nil {
+				fv.covers = map[*Clause][]string{}
+			}
+			fv.covers[e] = append(fv.covers[e], smtAnd(fv.curReach, a))
+		}
 		cs := splitAnd(t)
 		for ci, c := range cs {
 			d := fmt.Sprint(e.Idx)
